@@ -172,7 +172,7 @@ class C08(SessionProperty):
         return session.oracle_c08(case["doc"], case["ops"], steps)
 
 
-from . import laws, mapping  # noqa: E402
+from . import clisim, damage, fsworld, laws, mapping  # noqa: E402
 
 PROPERTIES: dict = {
     "C04": C04("C04", scoped_bias=0.2, fail=False),
@@ -180,6 +180,9 @@ PROPERTIES: dict = {
     "C06": C06("C06", scoped_bias=0.2, fail=False),
     "C08": C08("C08", scoped_bias=0.2, fail=True),
     "C14": mapping.MappingProperty(),
+    "C07": damage.DamageProperty(),
+    "C16": clisim.CliProperty(),
+    "C17": fsworld.FsProperty(),
     "C19": laws.LawsProperty(),
     "C09": C09("C09", profile="scope", scoped_bias=0.8, fail=None),
 }
